@@ -12,7 +12,8 @@ RULE = ('direction L2R: every PDU value of pdugen.trees encoded by the library a
         '<=4 sub-item kinds, unknown sub-item types, 1..3 transfer syntaxes, 1..4 PDVs) built by the reference encoder '
         'and decoded by the library (to_tree equality). distinct/non-trivial = distinct (direction, structural shape)')
 ASSUMPTIONS = ['reference codec vp/ref_pdu.py transcribed from PS3.8 9.3 / PS3.7 D.3.3, shares no code with the library',
-               'AE titles compared modulo leading/trailing SPACE only (PS3.8 9.3.2)']
+               'the field value of an AE title is the title without its (leading or trailing) padding spaces, PS3.8 9.3.2 - '
+               'what fix 9983d2a established for trailing padding']
 
 
 def domain(tier):
@@ -28,6 +29,13 @@ def cases(tier, seed):
     for lead in (1, 3):
         yield {'label': 'r2l-ae-lead', 'lead': lead,
                'tree': pdugen.assoc(1, [pdugen.app(), pdugen.pcrq(), pdugen.ui([K['ML'][0]])], called='AB', calling='C')}
+    # identity fields that are not text (Kerberos ticket = DER); known finding C02-KF1
+    yield {'label': 'r2l-binary-identity-58', 'lead': 0, 'r2l_only': True,
+           'tree': pdugen.assoc(1, [pdugen.app(), pdugen.pcrq(),
+                                    pdugen.ui([K['ML'][0], dict(K['UID58'][4], primary=b'\x61\x82\x01\xff\xa0\x80ticket')])])}
+    yield {'label': 'r2l-binary-identity-59', 'lead': 0, 'r2l_only': True,
+           'tree': pdugen.assoc(2, [pdugen.app(), pdugen.pcac(),
+                                    pdugen.ui([K['ML'][0], dict(K['UID59'][0], response=b'\x61\x82\x01\xff\xa0\x80ticket')])])}
     n = 4 if tier == 'thorough' else 3
     for k in range(2, n + 1):
         for perm in itertools.permutations(pdugen.KINDS, k):
@@ -136,10 +144,12 @@ def run_case(case):
     if pdugen.diff(tree, chk):
         raise common.HarnessError('reference codec is not self-consistent on %s: %s' % (label, pdugen.diff(tree, chk)))
     try:
-        got = pdugen.to_tree(cls.decode(wire))
-        for k in ('called', 'calling'):
-            if k in got:
-                got[k] = got[k].strip(' ')
+        dec = cls.decode(wire)
+        if label.startswith('r2l-binary-identity'):
+            # the field type (str / bytes) is the library's choice: decoding must work and lose nothing
+            got = tree if dec.encode() == wire else dict(tree, reencoded=dec.encode())
+        else:
+            got = pdugen.to_tree(dec)
         d = pdugen.diff(tree, got)
         if d:
             viol.append((sig + ':R2L:fields', 'library decode of a standard-conformant encoding differs at %s; x=%s'
